@@ -62,8 +62,8 @@ struct QsMt {
 	void setup() {
 		g_q = this;
 		AUNPOISON(node_store, sizeof node_store);
-		memset(dom_store, 0, sizeof dom_store); memset(agent_store, 0, sizeof agent_store); memset(node_store, 0, sizeof node_store);
-		new(dom_store) Domain();
+		memset(dom_store, 0xA5, sizeof dom_store); memset(agent_store, 0xA5, sizeof agent_store); memset(node_store, 0xA5, sizeof node_store);
+		new(dom_store) Domain;
 		for(int i = 0; i < VS_MAX_THREADS; i++) { created[i] = false; qcalls[i].clear(); on[i].clear(); for(int k = 0; k < 4; k++) { fired[i][k] = 0; reg_ts[i][k] = -1; data[i][k] = 0; } }
 		for(int i = 0; i < VS_MAX_THREADS; i++) { running[i] = 0; nfired[i] = 0; }
 		for(auto &f : flag) __atomic_store_n(&f, 0, __ATOMIC_RELAXED);
@@ -124,7 +124,7 @@ struct QsMt {
 			case QS: quiesce(i, false); break;
 			case WRITE: data[i][st.arg] = 1; break;
 			case AWAIT: {
-				MNode *n = new(node_store[i][st.arg]) MNode(); n->agent = i; n->idx = st.arg; n->on_grace_period = &on_grace;
+				MNode *n = new(node_store[i][st.arg]) MNode; n->agent = i; n->idx = st.arg; n->on_grace_period = &on_grace;
 				reg_ts[i][st.arg] = now();
 				agent(i).await_barrier(n); break;
 			}
